@@ -195,11 +195,16 @@ func (s *System) Dump(st *State) string {
 			continue
 		}
 		for _, l := range p.Locals {
+			// pcal makes only the process-level variables of `process (P = id)` plain; procedure
+			// parameters/locals and `stack` stay functions of self
+			single = p.Single && strings.HasPrefix(l.Res, p.Arch.Name+".")
 			add(l.Spec, p.Self.String(), st.P[i].Locals[l.Res].String())
 		}
+		single = false
 		if p.HasStack {
 			add("stack", p.Self.String(), StackTLA(st.P[i].Locals[".stack"], p))
 		}
+		single = p.Single
 		for n, v := range p.ConstLocals {
 			add(n, p.Self.String(), v)
 		}
